@@ -25,7 +25,8 @@ EXPLANATION = (
     " (R13) recovery's S3 listing walks every page (C20.R10); (R14) UTC ages (C20.R11); (R15) an AMBIGUOUS create-if-absent pointer write keeps the creator's metadata file (no delete on that path of initialize_table)."
     ' (R16) the schema is written once: stores to TableMetadata.schemas / current_schema_id only in the creation path and the deserialiser.'
     ' (R17) recovery orders versions as integers; (R18) a lost create race is reported as CASConflictError (exact code set, C08.R3).'
-    " (R19) the legacy pointer's file name stays in the recovery language (C10.R1).")
+    " (R19) the legacy pointer's file name stays in the recovery language (C10.R1)."
+    ' (R20) every exception class of the package is defined once (what is raised is what is caught). R2 follows a clean-up handler that re-raises outward to the handler that translates the conflict.')
 NOT_DECIDED = "the interleavings; that every caller ends on the same table at run time"
 
 MM = "metadata_manager.MetadataManager"
